@@ -294,3 +294,75 @@ def runScript (s : State) : List Op → State × List Entry
     (r2.1, r.2 :: r2.2)
 
 end MetricsRs
+
+/-! ## The reporter task (`reporter.rs::spawn_metric_reporter`)
+
+```
+while let Either::Left(_) = select(sleep(interval), shutdown.cancelled()).await { publish }   -- pc = sel
+publish                                                                                     -- pc = fin
+shutdown the sink; task ends                                                                -- pc = done
+```
+`publish` = `destination.append(recorder.readout())`. `MetricReporter::shutdown()` cancels the token and waits for the
+task to end. The task is one thread of control advanced in small steps (`RStep.task fired`: the task runs up to its
+next suspension point or publish; `fired` says whether the interval sleep has elapsed — `select` polls the sleep
+first); the program's updates and the cancel are interleaved arbitrarily with these steps. -/
+namespace Reporter
+
+inductive Pc where
+  | head   -- only in the `dedup` variant: about to test `!shutdown.is_cancelled()`
+  | sel    -- at / parked in `select(sleep, cancelled)`
+  | fin    -- left the loop, final publish pending
+  | done
+  deriving DecidableEq, Repr
+
+inductive RStep where
+  | update            -- the program updates some metric
+  | cancel            -- `shutdown()` cancels the token
+  | task (fired : Bool)
+  deriving DecidableEq, Repr
+
+/-- what an observer sees, in order: updates and published readouts -/
+inductive Mark where
+  | upd
+  | pub
+  deriving DecidableEq, Repr
+
+structure RState where
+  pc : Pc
+  cancelled : Bool
+  deriving DecidableEq, Repr
+
+/-- the code -/
+def stepOrig (s : RState) : RStep → RState × List Mark
+  | .update => (s, [.upd])
+  | .cancel => ({ s with cancelled := true }, [])
+  | .task fired =>
+    match s.pc with
+    | .sel => if fired then (s, [.pub]) else if s.cancelled then ({ s with pc := .fin }, []) else (s, [])
+    | .fin => ({ s with pc := .done }, [.pub])
+    | .head => ({ s with pc := .sel }, [])     -- not a state of the code; harmless
+    | .done => (s, [])
+
+/-- the "deduplicated" loop `while !shutdown.is_cancelled() { select(..).await; publish }` without the trailing
+publish (NOT the code; kept for the witness in `Props/C20.lean`) -/
+def stepDedup (s : RState) : RStep → RState × List Mark
+  | .update => (s, [.upd])
+  | .cancel => ({ s with cancelled := true }, [])
+  | .task fired =>
+    match s.pc with
+    | .head => if s.cancelled then ({ s with pc := .done }, []) else ({ s with pc := .sel }, [])
+    | .sel => if fired || s.cancelled then ({ s with pc := .head }, [.pub]) else (s, [])
+    | .fin => ({ s with pc := .done }, [])
+    | .done => (s, [])
+
+def runR (step : RState → RStep → RState × List Mark) (s : RState) : List RStep → RState × List Mark
+  | [] => (s, [])
+  | e :: es =>
+    let r1 := step s e
+    let r2 := runR step r1.1 es
+    (r2.1, r1.2 ++ r2.2)
+
+def initOrig : RState := { pc := .sel, cancelled := false }
+def initDedup : RState := { pc := .head, cancelled := false }
+
+end Reporter
